@@ -663,6 +663,9 @@ func c24Class(err error) string {
 func (fd *c24Findings) add(c c24Case, err error, tags string) {
 	cl := c24Class(err)
 	cl = strings.TrimPrefix(cl, "after a second crash during recovery: ")
+	if tags == "tail-of-one-table-above-head-of-another" && !strings.Contains(cl, "truncation below tail") {
+		tags = "" // that precondition only explains the cross-table alignment error
+	}
 	if tags != "" {
 		// the image satisfies the precondition of an established defect: file it there
 		cl = "{" + tags + "} recovery fails"
@@ -713,6 +716,10 @@ func c24Diagnose(img *vos.FS, cfg c24Config) string {
 		}
 		tags = append(tags, t)
 	}
+	var (
+		maxTail  uint64
+		minItems = ^uint64(0)
+	)
 	for _, t := range cfg.tables {
 		ext := "cidx"
 		if t.cfg.noSnappy {
@@ -724,6 +731,7 @@ func c24Diagnose(img *vos.FS, cfg c24Config) string {
 			add("index-file-shorter-than-one-entry")
 		}
 		if !okM || len(meta) == 0 || !okI || len(idx) < indexEntrySize {
+			minItems = 0
 			continue
 		}
 		var o struct {
@@ -740,9 +748,23 @@ func c24Diagnose(img *vos.FS, cfg c24Config) string {
 			usable = o.Offset
 		}
 		deleted := uint64(binary.BigEndian.Uint32(idx[2:6]))
-		if flushed := deleted + usable/indexEntrySize - 1; o.Tail > flushed {
+		flushed := deleted + usable/indexEntrySize - 1
+		if o.Tail > flushed {
 			add("virtual-tail-beyond-flushed-items")
 		}
+		if o.Tail > maxTail {
+			maxTail = o.Tail
+		}
+		if deleted > maxTail {
+			maxTail = deleted
+		}
+		if flushed < minItems {
+			minItems = flushed
+		}
+	}
+	if maxTail > minItems && len(tags) == 0 {
+		// the tail persisted by one table lies above what another table retains after the crash
+		add("tail-of-one-table-above-head-of-another")
 	}
 	sort.Strings(tags)
 	return strings.Join(tags, ",")
